@@ -18,6 +18,13 @@ judged on keys (and membership) and are only generated as the last operation.
 Floats (mean/var/std) are compared with rel/abs tolerance 1e-9 against exact
 rational arithmetic.
 
+Failure classification (findings/C48.json): a failing case is attributed to a
+``cause`` only by ``_cause`` below — for the two one-shot-iterator classes
+differentially (the same pipeline with concrete partitions must pass), for
+``accumulate`` by asking dask for the length of partition 0, for ``fold`` by the
+raise site.  A failure that is not explained that way keeps ``cause=None`` and
+its full signature, and is reported.
+
 Preconditions taken from the documentation, not from the implementation:
 * fold/foldby ``initial`` values are identity elements of the operator (the
   docs: "often 0 or the identity element"; a non-identity initial is applied
@@ -75,6 +82,14 @@ ASSUMPTIONS = [
 
 SCRATCH = "/var/tmp/vf-c48"
 KINDS = ["int", "str", "pair", "dict", "ilist"]
+
+
+def TEARDOWN():
+    # per-pid directories are removed by the workers after each case; drop the (empty) base directory
+    try:
+        os.rmdir(SCRATCH)
+    except OSError:
+        pass
 
 
 # ----------------------------------------------------------------- catalogue of operations
